@@ -1,5 +1,10 @@
 import TruthModel.Driver.Sexp
 import TruthModel.Driver.C11
+import TruthModel.Driver.C07
+import TruthModel.Driver.C15
+import TruthModel.Driver.C12
+import TruthModel.Driver.C10
+import TruthModel.Driver.C06
 import TruthModel.Driver.C14
 import TruthModel.Driver.C13
 import TruthModel.Driver.C17
@@ -14,6 +19,11 @@ open TruthModel
 def handler (id : String) : Sexp → Sexp :=
   match id with
   | "C11" => Driver.C11.handle
+  | "C07" => Driver.C07.handle
+  | "C15" => Driver.C15.handle
+  | "C12" => Driver.C12.handle
+  | "C10" => Driver.C10.handle
+  | "C06" => Driver.C06.handle
   | "C14" => Driver.C14.handle
   | "C13" => Driver.C13.handle
   | "C17" => Driver.C17.handle
